@@ -76,6 +76,7 @@ class Routes(ReverseProxyBasePlugin):
 
 FLAGS = {
     'forward': FlagParser.initialize(['--threadless']),
+    'forward_pool': FlagParser.initialize(['--threadless', '--enable-conn-pool']),
     'forward_reject': FlagParser.initialize(['--threadless'], plugins=[RejectAfterConnect]),
     'forward_tls': FlagParser.initialize(['--threadless', '--key-file', '/etc/p/key.pem', '--cert-file', '/etc/p/cert.pem']),
     'web': FlagParser.initialize(['--threadless', '--enable-web-server', '--disable-http-proxy'], plugins=[HelloRoute]),
